@@ -2,6 +2,7 @@
 package main
 
 import (
+	"math/big"
 	"encoding/json"
 	"errors"
 	"fmt"
@@ -345,7 +346,13 @@ func elemIndex(c Call) int {
 			idx = int(c.ID.Int64()) - 1000
 		}
 	case "SaveMeta":
-		fmt.Sscanf(c.Meta["elem"], "%d", &idx)
+		if _, ok := c.Meta["elem"]; ok {
+			fmt.Sscanf(c.Meta["elem"], "%d", &idx)
+		} else if s, ok := c.TID.(string); ok { // an element with empty metadata is recognised by its target
+			fmt.Sscanf(s, "acc%d", &idx)
+		} else if n, ok := c.TID.(*big.Int); ok && n != nil {
+			idx = int(n.Int64())
+		}
 	case "DeleteMetadata":
 		fmt.Sscanf(c.Key, "k%d", &idx)
 	}
@@ -380,10 +387,15 @@ func runC18(cfg *vc.Config, rep *vc.Report) {
 			}
 			switch e.Action {
 			case "ADD_METADATA":
+				md := fmt.Sprintf(`,"metadata":{"elem":"%d"}`, k)
+				if r.Chance(1, 6) { // nothing to set is still an element: empty, null or absent metadata
+					md = vc.Pick(r, []string{`,"metadata":{}`, `,"metadata":null`, ``})
+					rep.Inc("add_metadata_elements_without_metadata")
+				}
 				if r.Bool() {
-					e.Data = fmt.Sprintf(`{"targetType":"ACCOUNT","targetId":"acc%d","metadata":{"elem":"%d"}}`, k, k)
+					e.Data = fmt.Sprintf(`{"targetType":"ACCOUNT","targetId":"acc%d"%s}`, k, md)
 				} else {
-					e.Data = fmt.Sprintf(`{"targetType":"TRANSACTION","targetId":%d,"metadata":{"elem":"%d"}}`, k, k)
+					e.Data = fmt.Sprintf(`{"targetType":"TRANSACTION","targetId":%d%s}`, k, md)
 				}
 			case "REVERT_TRANSACTION":
 				e.Data = fmt.Sprintf(`{"id":%d,"force":%v}`, 1000+k, r.Bool())
